@@ -139,6 +139,14 @@ def run_cli(case: dict):
             discsim.UdpWorld(net, [dict(ip=h["ip"], listen_port=6445, replies=[(0.05, 6445, discsim.good_reply(h))])])
         holder["m"], holder["dev"] = m, dev
         holder["before"] = m.state.copy()
+        if case.get("b14") is not None and not m.state.display_on:
+            # the unit reports its display as off (3-bit field = 7) with other bits of that byte set as well (0x7x: low nibble, 0xFx: bit 7)
+            orig_frame = m.state_frame
+
+            def framed(ft, _orig=orig_frame):
+                m.state_overrides = {} if m.state.display_on else {14: case["b14"]}
+                return _orig(ft)
+            m.state_frame = framed
         if case.get("toggle_delay"):
             # the unit answers everything promptly except the display command, whose acknowledgement takes `toggle_delay` s (inside
             # the 2 s the client waits before repeating a request): the command is not idempotent, it must be sent once
@@ -456,7 +464,17 @@ def run(ctx) -> None:
                         case = _mk_valid(prs, dict(DEFAULT_INITIAL, display_on=not disp), caps, 2)
                         case["toggle_delay"] = delay
                         ctx.check(case, lambda c: _run_one(ctx, c))
-    ctx.sweep("breeze pairs; --capabilities on a unit without custom fan speeds x reported fan speeds; property + state setting x late duplicate report; slow display acknowledgement", z, True)
+    # the display is off and the byte carrying it has other bits set: display_on=1 toggles once, display_on=0 does not toggle
+    for b14 in (0x70, 0x71, 0x7F, 0xF0, 0xF5, 0xFF):
+        for disp in (True, False):
+            for extra in (None, (("eco", "bool", True), "eco=True")):
+                z += 1
+                if ctx.mine(z):
+                    prs = [(("display_on", "bool", disp), f"display_on={disp}")] + ([extra] if extra else [])
+                    case = _mk_valid(prs, dict(DEFAULT_INITIAL, display_on=False), z % 2 == 0, 2)
+                    case["b14"] = b14
+                    ctx.check(case, lambda c: _run_one(ctx, c))
+    ctx.sweep("breeze pairs; --capabilities on a unit without custom fan speeds x reported fan speeds; property + state setting x late duplicate report; slow display acknowledgement; display-off byte values", z, True)
 
     valid = st.builds(_mk_valid, st.lists(pair_strategy(), min_size=1, max_size=3), gens.device_states(), st.booleans(), st.sampled_from([2, 2, 3]),
                       st.sampled_from([False, False, True]), st.booleans(), st.sampled_from([False, False, True]), st.sampled_from([None, None, None, 0.06, 0.07, 0.1, 0.2]))
